@@ -304,6 +304,7 @@ pub fn scratch_dir() -> PathBuf {
 }
 
 const HANG_SECS: u64 = 180;
+const MAX_CRASHED_RUNS: usize = 6;
 
 pub struct BatchResult {
     pub exit: i32,
@@ -440,7 +441,11 @@ pub fn run_check<P: Property>(tier: Tier) -> i32 {
                             let prefix = mk_prefix(&sdir);
                             children.push(spawn_worker::<P>(tier, seed, c.start, idx, total, &prefix));
                         }
-                        if idx + 1 < c.end {
+                        // every crash / hang found is reported; after MAX_CRASHED_RUNS of them the rest of that shard is
+                        // not explored any more (a hang costs HANG_SECS each: the verdict is "violated" already)
+                        if crashed_runs.len() >= MAX_CRASHED_RUNS {
+                            eprintln!("[{}] {} runs crashed or hung: the remainder of this shard ({}..{}) is not explored", P::ID, crashed_runs.len(), idx + 1, c.end);
+                        } else if idx + 1 < c.end {
                             let prefix = mk_prefix(&sdir);
                             children.push(spawn_worker::<P>(tier, seed, idx + 1, c.end, total, &prefix));
                         }
